@@ -224,7 +224,7 @@ def _shallow_shared(f, name, stmt, attr) -> str:
     return ""
 
 
-def writers(ctx, rule="C09.effects"):
+def writers(ctx, rule="C09.effects", floor=40):
     global ctx_tree
     ctx_tree = ctx.tree
     ctx.explain(f"{rule}: who-may-write table for the attributes of user-visible Program / Command / Operation "
@@ -304,7 +304,7 @@ def writers(ctx, rule="C09.effects"):
     ctx.ob(rule, lc.site, ok, "" if ok else f"_linked_copy shares {sorted(shared)}; run/backend options must be copied",
            role="shared-set", line=lc.node.lineno)
     # Program.optimize / compile assign the new circuit to the copy, never to self
-    ctx.floor(rule, 40)
+    ctx.floor(rule, floor)
 
 
 # ------------------------------------------------------------------------------------------------
